@@ -10,8 +10,10 @@ Code modelled:
   `EnableScheduleBindings` task (when it has schedules);
 * the main queue worker (`TaskQueue.Start`): handle the head task; `Fail` keeps it at the head (retry),
   `Success` removes it and puts `HeadTasks` in front;
-* `taskHandleEnableKubernetesBindings` — one Synchronization `HookRun` task per binding, in binding
-  order, as head tasks; `taskHandleHookRun` — the skip rules for Synchronization (v0, flag false), the
+* `taskHandleEnableKubernetesBindings` / `EnableKubernetesBindings` — the loop over the bindings with a
+  fault sequence for `AddMonitor` (a failed attempt is retried as a whole); on success one Synchronization `HookRun` task per binding, in binding
+  order, as head tasks; `taskHandleHookRun` — the skip rules for Synchronization (v0 — present iff the regenerated
+  fact `c06V0SkipRule` —, flag false), the
   no-combine rule for ungrouped Synchronization, `combineBindingContextForHook` (contiguous followers
   of the same hook and task type, stop condition, group compaction), hook outcome from a failure script.
 
@@ -32,6 +34,10 @@ structure Hook where
   onStartup : Option Int   -- ORDER
   kube : List KBinding
   sched : Bool
+  /-- fault sequence of this hook's `EnableKubernetesBindings` task (environment, not configuration; kept
+  with the hook so that every theorem quantifies over it): the k-th entry is the position of the binding
+  whose monitor cannot be created (`AddMonitor` returns an error) in the k-th attempt -/
+  kfail : List Nat := []
   deriving Repr
 
 /-- a binding context as the hook sees it during startup -/
@@ -59,6 +65,7 @@ structure Task where
   mons : List Nat := []      -- MonitorIDs (one monitor per binding: its name)
   execSync : Bool := false   -- ExecuteOnSynchronization
   group : Nat := 0
+  kfail : List Nat := []     -- EnableKubernetesBindings: the remaining fault sequence of this task
   deriving DecidableEq, Repr
 
 /-! ## GetHooksInOrder(OnStartup) -/
@@ -84,7 +91,7 @@ def getHooksInOrder (hooks : List Hook) : List Hook :=
 def startupTask (h : Hook) : Task := { typ := .hookRun, hook := h.name, ctxs := [.onStartup] }
 
 def enableTasks (h : Hook) : List Task :=
-  (if h.kube.isEmpty then [] else [{ typ := .enableKube, hook := h.name }]) ++
+  (if h.kube.isEmpty then [] else [{ typ := .enableKube, hook := h.name, kfail := h.kfail }]) ++
   (if h.sched then [{ typ := .enableSched, hook := h.name }] else [])
 
 def enableQueue : List Hook → List Task
@@ -99,6 +106,19 @@ def bootstrap (hooks : List Hook) : List Task :=
 /-- Synchronization tasks returned by `taskHandleEnableKubernetesBindings` as head tasks -/
 def syncTask (h : Nat) (b : KBinding) : Task :=
   { typ := .hookRun, hook := h, ctxs := [.sync b.name b.group], mons := [b.name], execSync := b.execSync, group := b.group }
+
+/-- `kubernetesBindingsController.EnableKubernetesBindings`: the loop over the bindings in configuration
+order — `AddMonitor` (an error returns `nil, err` at once: nothing of this attempt is kept), link,
+`StartMonitor`, append the binding's Synchronization info. `failAt = some k`: in this attempt `AddMonitor`
+of the binding at position `k` fails. Every attempt starts from the first binding again, whatever earlier
+attempts have already created. -/
+def enableBindings (h : Nat) (failAt : Option Nat) : Nat → List KBinding → Option (List Task)
+  | _, [] => some []
+  | i, b :: bs =>
+    if failAt == some i then none
+    else match enableBindings h failAt (i + 1) bs with
+      | none => none
+      | some ts => some (syncTask h b :: ts)
 
 /-- `HookMetadata.IsSynchronization` -/
 def Task.isSync (t : Task) : Bool :=
@@ -131,6 +151,7 @@ inductive Ev where
   | skip (hook : Nat) (ctxs : List Ctx)       -- Synchronization task finished without running the hook
   | unlock (mons : List Nat)                  -- UnlockKubernetesEventsFor
   | enableKube (hook : Nat)
+  | enableKubeFail (hook : Nat) (pos : Nat)   -- a failed attempt of EnableKubernetesBindings: the task stays at the head
   | enableSched (hook : Nat)                  -- the hook's schedules are registered from here on
   deriving DecidableEq, Repr
 
@@ -142,11 +163,23 @@ structure St where
 def findHook (hooks : List Hook) (n : Nat) : Hook :=
   (hooks.find? (·.name == n)).getD { name := n, v1 := true, onStartup := none, kube := [], sched := false }
 
+/-- the rule "There were no Synchronization for v0 hooks, skip hook execution" of `taskHandleHookRun`
+(regenerated from operator.go) -/
+def v0RuleFact : Bool := Facts.c06V0SkipRule
+
+/-- what `HookConfigV0.ConvertAndCheck` leaves in `ExecuteHookOnSynchronization` of a v0 binding
+(regenerated from config_v0.go; a v0 configuration has no such option) -/
+def v0FlagFact : Bool := Facts.c06V0SyncFlag
+
+/-- the conversion of a v0 configuration: no groups, the flag is the converter's default -/
+def convertV0 (h : Hook) : Hook :=
+  if h.v1 then h else { h with kube := h.kube.map fun b => { b with group := 0, execSync := v0FlagFact } }
+
 /-- `taskHandleHookRun` up to the hook execution: (does the hook run, task after combine, queue after combine) -/
 def prepare (stop : Bool) (hooks : List Hook) (t : Task) (rest : List Task) : Bool × Task × List Task :=
   let hk := findHook hooks t.hook
   let isSync := t.isSync
-  let shouldRun := !(isSync && (!hk.v1 || !t.execSync))
+  let shouldRun := !(isSync && ((v0RuleFact && !hk.v1) || !t.execSync))
   if shouldRun && hk.v1 then
     -- "Do not combine Synchronizations without group"
     let shouldCombine := !(isSync && t.group == 0)
@@ -165,8 +198,12 @@ def step (stop : Bool) (hooks : List Hook) (s : St) : St :=
     match t.typ with
     | .enableSched => { s with queue := rest, log := s.log ++ [.enableSched t.hook] }
     | .enableKube =>
-      let hk := findHook hooks t.hook
-      { s with queue := hk.kube.map (syncTask t.hook) ++ rest, log := s.log ++ [.enableKube t.hook] }
+      match enableBindings t.hook t.kfail.head? 0 (findHook hooks t.hook).kube with
+      | none =>     -- `Fail`: retried, the next attempt sees the rest of the fault sequence
+        { s with queue := { t with kfail := t.kfail.tail } :: rest,
+                 log := s.log ++ [.enableKubeFail t.hook (t.kfail.headD 0)] }
+      | some ts =>  -- `Success`: the Synchronization tasks are the head tasks
+        { s with queue := ts ++ rest, log := s.log ++ [.enableKube t.hook] }
     | .hookRun =>
       match prepare stop hooks t rest with
       | (false, t', rest') =>
@@ -194,7 +231,7 @@ def initSt (hooks : List Hook) (fails : Nat → List Bool) : St :=
 
 /-- an upper bound on the number of worker iterations of a start -/
 def fuelBound (hooks : List Hook) (fails : Nat → List Bool) : Nat :=
-  hooks.foldl (fun acc h => acc + 3 + 2 * h.kube.length + (fails h.name).length) 1
+  hooks.foldl (fun acc h => acc + 3 + 2 * h.kube.length + (fails h.name).length + h.kfail.length) 1
 
 def run (hooks : List Hook) (fails : Nat → List Bool) : St :=
   runFuel stopFact hooks (fuelBound hooks fails) (initSt hooks fails)
